@@ -72,7 +72,7 @@ func c14Gen(rt *rapid.T) c14Case {
 	c := c14Case{History: gen.History(rt, cfg, db), Tick: rapid.Bool().Draw(rt, "tick")}
 	names := db.TableNames()
 	t := db.Tables[names[rapid.IntRange(0, len(names)-1).Draw(rt, "tbl")]]
-	kinds := []string{"unknown-insert", "unknown-update", "unknown-delete", "dup-create", "colcount", "type", "intrange", "oversize", "upd-type", "upd-oversize-kth", "create-badlen", "create-longname", "where-error-kth", "where-error-kth", "case-variant", "where-unknown-col"}
+	kinds := []string{"unknown-insert", "unknown-update", "unknown-delete", "dup-create", "colcount", "type", "intrange", "oversize", "upd-type", "upd-oversize-kth", "create-badlen", "create-longname", "where-error-kth", "where-error-kth", "case-variant", "where-unknown-col", "create-dupcol"}
 	for tries := 0; ; tries++ {
 		c.Kind = rapid.SampledFrom(kinds).Draw(rt, "failkind")
 		s := model.Stmt{Table: t.Name}
@@ -88,6 +88,26 @@ func c14Gen(rt *rapid.T) c14Case {
 			s = model.Stmt{Kind: "delete", Table: "no_such_table"}
 		case "dup-create":
 			s = model.Stmt{Kind: "create", Table: t.Name, Cols: gen.Columns(rt, 3)}
+		case "create-dupcol":
+			// a CREATE TABLE that names a column twice (exactly, or in another letter case): whether
+			// that is an error is the implementation's choice; a half-created table is not
+			cols := gen.Columns(rt, 4)
+			i := rapid.IntRange(0, len(cols)-1).Draw(rt, "dupof")
+			dup := cols[i]
+			if rapid.IntRange(0, 3).Draw(rt, "dupcase") == 0 {
+				dup.Name = strings.ToUpper(dup.Name)
+			}
+			dup.Type = model.ColType(rapid.IntRange(0, 3).Draw(rt, "duptype"))
+			if dup.Type == model.TVarchar {
+				dup.Len = 10
+			}
+			at := rapid.IntRange(0, len(cols)).Draw(rt, "dupat")
+			cols = append(cols[:at], append([]model.Col{dup}, cols[at:]...)...)
+			s = model.Stmt{Kind: "create", Table: "fresh_tbl", Cols: cols}
+			s.SQL = gen.RenderStmt(gen.NewStyle(rt), s)
+			c.K, c.N = at, len(cols)
+			c.Expect, c.Failing = model.ErrType, s
+			return c
 		case "where-unknown-col":
 			where := &model.Cond{Or: [][]model.Cmp{{{L: model.Operand{Col: "no_such_col"}, Op: "=", R: model.Operand{Lit: &model.Val{T: "i", I: 1}}}}}}
 			if rapid.Bool().Draw(rt, "wdel") {
@@ -343,7 +363,7 @@ func c14Run(c c14Case, st *vlib.Stats) string {
 	ferr := eng.ExecStmt(c.Failing)
 	if ferr == nil {
 		switch c.Kind {
-		case "create-badlen", "create-longname", "where-error-kth", "case-variant", "where-unknown-col", "huge-valid":
+		case "create-badlen", "create-longname", "where-error-kth", "case-variant", "where-unknown-col", "huge-valid", "create-dupcol":
 			// whether these fail is the implementation's choice (how wide the catalog's length
 			// column is, whether a comparison with NULL is an error); the property only says
 			// what must hold IF the statement returns an error
